@@ -37,6 +37,9 @@ class Value:
         self.handled = False
 
         self._value = None
+        # (several results are kept as a list: told apart from the one
+        # result that is a list)
+        self._several = False
 
     def __getstate__(self):
         odict = self.__dict__.copy()
@@ -95,11 +98,12 @@ class Value:
         if isinstance(value, Value):
             value.parent = self
 
-        if self.result and isinstance(self._value, list):
+        if self.result and self._several:
             self._value.append(value)
         elif self.result:
             self._value = [self._value]
             self._value.append(value)
+            self._several = True
         else:
             self._value = value
 
